@@ -185,7 +185,8 @@ class ProgressivelyTerminalDecider(BaseDecider):
             else:
                 return target - self.grammar.get_distance_to_terminal(n)
 
-        weights = [w(alt) * self.grammar.get_weights()[alt] for alt in alternatives]
+        grammar_weights = self.grammar.get_weights()
+        weights = [w(alt) * grammar_weights.get(alt, 1.0) for alt in alternatives]
         return self.random.choice_weighted(alternatives, weights)
 
 
